@@ -364,6 +364,7 @@ class WeeklyCalendar(IWorkCalendar):
 
         else:
             if type(units_per_day) is dict:
+                WeeklyCalendar.__check_working_days(list(units_per_day.keys()))
                 self.__day_hours = {}
                 for i in range(0, 7):
                     val = units_per_day[i] if i in units_per_day else 0
